@@ -771,6 +771,21 @@ class Proc(object):
                 key = self.coerce(kt_, kty, dty[1])
                 dflt = self.coerce(dt_, dfty, dty[2])
                 return ("((%s.lookup %s).getD %s)" % (d, key, dflt), dty[2])
+        if isinstance(f, ast.Attribute) and f.attr == "get" and len(e.args) == 2 and self.spec.get("dict_get"):
+            try:
+                d_, dty_ = self.expr(f.value, env)
+            except Untranslatable:
+                d_, dty_ = None, None
+            if isinstance(dty_, tuple) and dty_[0] in ("ODict", "AssocL"):
+                key = self.coerce(*self.expr(e.args[0], env), dty_[1])
+                if isinstance(e.args[1], ast.Constant) and e.args[1].value is None:
+                    return ("(lookupLast %s %s)" % (d_, key), ("Opt", dty_[2]))          # d.get(k, None)
+                if isinstance(e.args[1], ast.Dict) and not e.args[1].keys and isinstance(dty_[2], tuple) and dty_[2][0] in ("ODict", "AssocL"):
+                    return ("((lookupLast %s %s).getD [])" % (d_, key), dty_[2])          # d.get(k, {})
+        if fname == "dict" and len(e.args) == 1 and self.spec.get("dict_get"):
+            t, ty = self.expr(e.args[0], env)
+            if isinstance(ty, tuple) and ty[0] in ("ODict", "AssocL"):
+                return (t, ty)                                                          # a copy of an immutable dictionary value is the value itself
         if isinstance(f, ast.Attribute) and f.attr == "join" and len(e.args) == 1 and isinstance(f.value, ast.Constant) and isinstance(f.value.value, str):
             t, ty = self.expr(e.args[0], env)
             if ty == ("List", "Tok"):
@@ -1515,6 +1530,16 @@ class Proc(object):
                     en = en.copy()
                     en.aliases[tgt.id] = (s.value.func.value.id, key, dty)
                 return txt1 + txt2 + self.block(rest, en, k)
+            if isinstance(s.value, ast.Call) and isinstance(s.value.func, ast.Attribute) and isinstance(s.value.func.value, ast.Name) and s.value.func.value.id in env.vars \
+                    and isinstance(env.vars[s.value.func.value.id][1], tuple) and env.vars[s.value.func.value.id][1][0] == "Opt" \
+                    and isinstance(env.vars[s.value.func.value.id][1][1], tuple) and env.vars[s.value.func.value.id][1][1][0] == "Rec" \
+                    and self.spec.get("none_call_error") and self.ret[0] == "Except":
+                # x.method(..) where x may still be None on this path as far as the translator can tell: Python raises AttributeError there - the declared constructor
+                nm_ = s.value.func.value.id
+                lean_, ty_ = env.vars[nm_]
+                n_ = env.fresh(nm_)
+                en_ = env.bind(nm_, n_, ty_[1])
+                return "(match %s with\n| some %s => %s\n| none => (.error %s))" % (lean_, n_, self.block([s] + rest, en_, k), self.spec["none_call_error"])
             if isinstance(s.value, ast.Subscript) and isinstance(s.value.slice, ast.Constant) and isinstance(s.value.slice.value, int) and s.value.slice.value >= 0 \
                     and self.spec.get("index_error") and self.ret[0] == "Except" and isinstance(tgt, ast.Name) and self.seg(s.value) not in env.facts:
                 try:
@@ -1566,6 +1591,17 @@ class Proc(object):
             key = self.coerce(*self.expr(s.value.args[0], env), dty[1])
             dv = self.coerce(*self.expr(s.value.args[1], env), dty[2])
             txt, en = self.assign_name(s.value.func.value, "(odictSetDefault %s %s %s)" % (d, key, dv), dty, env)
+            txt2, en = self.write_back(s.value.func.value.id, en)
+            return txt + txt2 + self.block(rest, en, k)
+        if isinstance(s, ast.Expr) and isinstance(s.value, ast.Call) and isinstance(s.value.func, ast.Attribute) and s.value.func.attr == "update" \
+                and isinstance(s.value.func.value, ast.Name) and s.value.func.value.id in env.vars and len(s.value.args) == 1 and not s.value.keywords \
+                and isinstance(env.vars[s.value.func.value.id][1], tuple) and env.vars[s.value.func.value.id][1][0] == "ODict":
+            # d.update(other): every entry of `other`, in its order, set in d (an existing key keeps its position and gets the new value)
+            d, dty = env.vars[s.value.func.value.id]
+            ot, oty = self.expr(s.value.args[0], env)
+            if oty != dty:
+                raise Untranslatable("update of %s with %s" % (dty, oty))
+            txt, en = self.assign_name(s.value.func.value, "(odictUpdate %s %s)" % (d, ot), dty, env)
             txt2, en = self.write_back(s.value.func.value.id, en)
             return txt + txt2 + self.block(rest, en, k)
         if isinstance(s, ast.Expr) and isinstance(s.value, ast.Yield):
@@ -2358,6 +2394,15 @@ PROCS = [
          implicit=[("createTabulation", ("Fun", [("Rec", "FactoryObj"), ("Rec", "CpT")], ("Except", "TargetErr", ("Rec", "TabulationObj"))))],
          methods={("FactoryObj", "create_tabulation"): ("createTabulation", [("Rec", "CpT")], ("Except", "TargetErr", ("Rec", "TabulationObj")))},
          raises=[("unknown tabulation target specified", "TargetErr.unknownTarget")]),
+    # ---- C03 / C16: Reference_Data.get: [Species] entries override the built-in element table, property by property
+    dict(name="reference_get", file="referencedata/_reference_data.py", func="Reference_Data.get", dict_get=True, narrow_attr_dicts=True, retype=["species_dat"],
+         none_call_error="RefErr.attributeError",
+         params=[("self.extra_data", ("ODict", "Str", ("ODict", "Str", ("Rec", "RefVal")))), ("species", "Str"), ("property_name", "Str")],
+         ret=("Except", "RefErr", ("Rec", "RefVal")), records={"RefVal": {}, "ElData": {}},
+         globals={"reference_data": ("_data", "builtinTable")},
+         implicit=[("builtinTable", ("ODict", "Str", ("Rec", "ElData"))), ("asDict", ("Fun", [("Rec", "ElData")], ("ODict", "Str", ("Rec", "RefVal"))))],
+         methods={("ElData", "_asdict"): ("asDict", [], ("ODict", "Str", ("Rec", "RefVal")))},
+         raises=[("Unknown_Species_Exception(", "RefErr.unknownSpecies"), ("Unknown_Property_Exception(", "RefErr.unknownProperty")]),
     # ---- C09: the trans() modifier
     dict(name="trans_modifier", file="_modifiers.py", func="trans", drop_logging=True, index_error="TransErr.indexError",
          params=[("potential_forms", ("List", ("Rec", "PInstS"))), ("potential_form_builder", "Unit")], ret=("Except", "TransErr", ("Rec", "TransObj")),
@@ -3053,6 +3098,21 @@ def orderedPairs {α : Type} (xs : List α) : List (α × α) :=
     if i = j then none else match xs[i]?, xs[j]? with
       | some a, some b => some (a, b)
       | _, _ => none
+
+/-- `d.update(other)` -/
+def odictUpdate {κ β : Type} [BEq κ] (d other : List (κ × β)) : List (κ × β) := other.foldl (fun acc e => odictSet acc e.1 e.2) d
+
+/-- a property value of the reference data (number or text): opaque -/
+structure RefVal where
+  id : Nat
+deriving Repr, DecidableEq
+/-- an `Element_Data` record of the built-in table: opaque, read through `_asdict()` -/
+structure ElData where
+  id : Nat
+deriving Repr, DecidableEq
+inductive RefErr where
+  | unknownSpecies | unknownProperty | attributeError
+deriving DecidableEq, Repr
 
 /-- `s.replace(c, "")` -/
 def removeChar (s : String) (c : Char) : String := String.ofList (s.toList.filter fun x => x != c)
